@@ -215,8 +215,14 @@ def apply_lemma(req):
             args.append(('pattern', B.to_py(a['pattern'])))
     out = {'entry': req['entry'], 'built': False}
     try:
-        real = [t.load_axiom(x) if k == 'thunk' else x for k, x in args]
+        nest = req.get('nest', 0)
+        # nested compositions: a premise that is itself the result of library lemmas ((P -> P), P |- P), and the result
+        # consumed by a further rule in the same way
+        wrap = (lambda th: t.modus_ponens(t.imp_refl(th.conc), th)) if nest else (lambda th: th)
+        real = [wrap(t.load_axiom(x)) if k == 'thunk' else x for k, x in args]
         thunk = getattr(t, req['entry'])(*real)
+        if nest >= 2:
+            thunk = wrap(wrap(thunk))
     except EXC as e:
         out['error'] = type(e).__name__ + ': ' + str(e)[:150]
         return out
